@@ -60,7 +60,7 @@ def rule_a(ctx, ix):
                 if tg:
                     env[t0.id] = tg if t0.id not in (cid, cido) else env[t0.id] | tg
             elif '_key_joins[' in unparse(t0) and isinstance(x.value, ast.Tuple) and len(x.value.elts) == 2:
-                stores[unparse(t0)] = (tags(x.value.elts[0]), tags(x.value.elts[1]), unparse(x.value))
+                stores[unparse(t0)] = (tags(x.value.elts[0]), tags(x.value.elts[1]), unparse(x.value), x)
     fwd = stores.get('%s._key_joins[%s]' % (s, other))
     bwd = stores.get('%s._key_joins[%s]' % (other, s))
     ctx.ob(R, f.construct, 'the join is stored on this dataset as (own keys, other keys)', fwd is not None and fwd[:2] == ({'L'}, {'R'}),
@@ -69,6 +69,14 @@ def rule_a(ctx, ix):
            detail='join_on_key stores %s under other._key_joins[self] (expected the swapped tuple (other keys, own keys)): selections do not '
                   'propagate from this dataset to the other one%s' % (bwd[2] if bwd else None, '' if bwd else ' - the reverse registration is missing'),
            where=f.where)
+    if fwd is not None and bwd is not None:
+        from .. import cond
+        pcf = cond.path_condition(f.node, fwd[3], expand=False) or ('const', True)
+        pcb = cond.path_condition(f.node, bwd[3], expand=False) or ('const', True)
+        ctx.ob(R, f.construct + ' both directions', 'the two directions are stored under the same condition', cond.equivalent(pcf, pcb),
+               detail='join_on_key stores the forward direction under `%s` but the reverse direction under `%s`: joining the same two '
+                      'datasets again (on other keys) updates one direction only, so a selection travels one way by the new keys and '
+                      'the other way by the old ones' % (pcf, pcb), where=where(f, bwd[3]))
     lm = ix.cls('glue.core.link_manager.LinkManager')
     g = lm.resolve_func('add_link')
     j = [c for c in calls_in(g.node) if call_name(c) == 'join_on_key']
